@@ -518,3 +518,69 @@ Section Run.
     now rewrite command_is_set.
   Qed.
 End Run.
+
+(* ================= the configuration-level statement ================= *)
+(* the command "help" as DefaultApplicationConfig.configure() defines it:
+     with self.command("help") as c: c.default(); c.add_argument("command", Argument.OPTIONAL | Argument.MULTI_VALUED, ...)
+   - named "help", no alias, not anonymous, enabled, no sub-command, the one argument "command" (multi-valued, optional, string).
+   Whether it is a default command, lenient, or has options of its own does not matter. *)
+Definition is_help_command (c : cmd) : bool :=
+  match c with
+  | Cmd name [] _ false true _ _ [a] [] => str_eqb name S_help && is_command_arg a
+  | _ => false
+  end.
+(* the global help option, no global argument, the help command *)
+Definition default_help_config (cfg : appcfg) : bool :=
+  defines_help cfg && match ac_args cfg with [] => true | _ => false end && existsb is_help_command (ac_cmds cfg).
+
+Theorem help_same_run cfg a debug path :
+  build_app cfg = Ok a -> default_help_config cfg = true ->
+  forallb lead_ok path = true -> path <> [] ->
+  (match path with t :: _ => str_eqb t S_help = false | [] => True end) ->
+  sm_action (run_summary debug a (S_help :: path)) = help_page a (S_help :: path) /\
+  sm_action (run_summary debug a (path ++ [T_help])) = help_page a (S_help :: path) /\
+  sm_action (run_summary debug a (path ++ [T_h])) = help_page a (S_help :: path).
+Proof.
+  intros Hb Hcfg Hplain Hne Hh. unfold default_help_config in Hcfg.
+  apply andb_prop in Hcfg as [Hcfg Hcmd]. apply andb_prop in Hcfg as [Hdef Hga].
+  destruct (help_same_target cfg a path Hb Hdef Hplain Hh) as [T1 T2].
+  destruct (ac_args cfg) as [|? ?] eqn:Eargs; [|discriminate]. clear Hga.
+  pose proof Hdef as Hdef'. unfold defines_help in Hdef'. apply existsb_exists in Hdef' as [o [Hoin Ho]].
+  pose proof (build_app_carries cfg a o Hb Hoin) as Htree.
+  apply existsb_exists in Hcmd as [c [Hcin Hc]].
+  destruct c as [name [|? ?] dflt [|] [|] len opts [|arg [|? ?]] [|? ?]]; try discriminate.
+  cbn [is_help_command] in Hc. apply andb_prop in Hc as [Hname Harg].
+  destruct (str_eqb_spec name S_help) as [->|]; [|discriminate].
+  unfold build_app in Hb. rewrite Eargs in Hb.
+  destruct (format_of_elements (map EArg [] ++ map EOpt (ac_opts cfg)) None) as [g|k] eqn:Eg; cbn [bind] in Hb; [|discriminate].
+  destruct (build_cmds g [] (ac_cmds cfg)) as [cs|k] eqn:Ec; cbn [bind] in Hb; [|discriminate].
+  inversion Hb; subst a. clear Hb. cbn [ap_cmds] in *.
+  destruct (build_cmds_in g S_help [] dflt false len opts [arg] _ _ _ Ec Hcin) as [f [Ef Hin]].
+  destruct (build_cmds_nodup g _ _ _ Ec) as [Hnd _].
+  destruct (help_inv _ _ _ _ _ Eg Ef Harg) as [Hinv Hsound].
+  destruct (help_shape _ _ _ _ _ Eg Ef) as [Hargs Hcns].
+  assert (carries o f) as Hcar.
+  { pose proof (proj1 (Forall_forall _ _) Htree _ Hin) as Ht. apply tree_ok_unfold in Ht as [Ht _]. exact Ht. }
+  set (hc := BCmd S_help [] dflt false len f []) in *.
+  assert (coll_contains (named_of cs) S_help = true /\ coll_get (named_of cs) S_help = Ok hc) as Hnamed.
+  { apply (coll_of_found _ hc); [now apply nodup_names_filter|]. apply filter_In. split; [exact Hin|reflexivity]. }
+  assert (coll_get (coll_of cs) S_help = Ok hc) as Hall by (apply (coll_of_found _ hc Hnd Hin)).
+  set (app := {| ap_global := g; ap_cmds := cs |}) in *.
+  split; [|split].
+  - apply (run_help_word app dflt len f arg Hnamed Hinv Hargs Hcns Harg path Hplain Hne).
+  - rewrite (run_help_switch app dflt len f arg o Hall Hinv Hsound Hargs Hcns Harg Hcar Ho path Hplain Hne debug T_help Hh) by (now left).
+    unfold help_page. now rewrite T1.
+  - rewrite (run_help_switch app dflt len f arg o Hall Hinv Hsound Hargs Hcns Harg Hcar Ho path Hplain Hne debug T_h Hh) by (now right).
+    unfold help_page. now rewrite T2.
+Qed.
+
+(* the three runs do the same *)
+Corollary help_same_action cfg a debug path :
+  build_app cfg = Ok a -> default_help_config cfg = true ->
+  forallb lead_ok path = true -> path <> [] ->
+  (match path with t :: _ => str_eqb t S_help = false | [] => True end) ->
+  sm_action (run_summary debug a (S_help :: path)) = sm_action (run_summary debug a (path ++ [T_help])) /\
+  sm_action (run_summary debug a (S_help :: path)) = sm_action (run_summary debug a (path ++ [T_h])).
+Proof.
+  intros Hb Hc Hp Hn Hh. destruct (help_same_run cfg a debug path Hb Hc Hp Hn Hh) as (-> & -> & ->). auto.
+Qed.
